@@ -6,6 +6,7 @@
 //   xrff <filter> <hexbytes>                                read_xrff(istringstream(bytes), params)
 //   csv2  <delim> <hdr> <trim> <keep> <oidx> <hook> <hexbytes>   read_csv with every member of params set
 //   xrff2 <delim> <hdr> <trim> <keep> <oidx> <hook> <hexbytes>   read_xrff with the same params
+//   file <hexext> <delim> <hdr> <trim> <keep> <oidx> <hook> <hexbytes>   dataframe::read(path "t<pid><ext>", params)
 //   xdoc <hexbytes>                                         the logical XRFF document tinyxml2 hands to read_xrff
 //   parse <delim> <trim> <keep> <hexbytes>                  pocket_csv::parser over the bytes, every record
 //   sniff <hexbytes>                                        pocket_csv::sniffer
@@ -29,7 +30,11 @@
 #include "utility/pocket_csv.h"
 #include "tinyxml2/tinyxml2.h"
 
+#include <filesystem>
+#include <fstream>
 #include <variant>
+
+#include <unistd.h>
 
 namespace
 {
@@ -249,9 +254,11 @@ struct probe_params : symbol_params
 };
 }  // namespace
 
-int main()
+int main(int, char *argv[])
 {
   log::reporting_level = log::lOFF;
+  // scratch files live next to the executable (the build directory), never under /tmp
+  const std::filesystem::path scratch(std::filesystem::absolute(argv[0]).parent_path());
 
   std::string line;
   while (std::getline(std::cin, line))
@@ -305,6 +312,36 @@ int main()
         dataframe d;
         const auto n(d.read_xrff(is, p));
         return dump(d, n);
+      });
+    }
+    else if (op == "file" && t.size() == 9)
+    {
+      // file <hex extension> <delim> <hdr> <trim> <keep> <oidx> <hook> <hexbytes>
+      // dataframe::read(path, params): the format is chosen by the extension of the file name
+      ans = guarded([&]
+      {
+        const auto p(make_params2(t, 2));
+        const std::filesystem::path dir(scratch / "c09_files");
+        std::filesystem::create_directories(dir);
+        const auto fn(dir / ("t" + std::to_string(::getpid()) + verif::unhex(t[1])));
+        {
+          std::ofstream out(fn, std::ios::binary);
+          out << verif::unhex(t[8]);
+        }
+        dataframe d;
+        std::string r;
+        try
+        {
+          const auto n(d.read(fn, p));
+          r = dump(d, n);
+        }
+        catch (...)
+        {
+          std::filesystem::remove(fn);
+          throw;
+        }
+        std::filesystem::remove(fn);
+        return r;
       });
     }
     else if (op == "xdoc" && t.size() == 2)
